@@ -106,6 +106,28 @@ def pattern(rng, n, kind=None, density=None):
         for j in range(n):
             for i in range(n):
                 if rng.random() < 0.85: pat.add((i, j))
+    elif kind == "denserow":
+        # a few dense rows and columns on a sparse background, zero diagonals allowed (transversal shuffled)
+        pat = set(); perm2 = list(range(n)); rng.shuffle(perm2)
+        for j in range(n): pat.add((perm2[j], j))
+        for r in rng.sample(range(n), max(1, n // 8)):
+            for j in range(n): pat.add((r, j))
+        for c in rng.sample(range(n), max(1, n // 8)):
+            for i in range(n): pat.add((i, c))
+        for j in range(n):
+            if rng.random() < 0.3: pat.add((rng.randrange(n), j))
+    elif kind == "nothall":
+        # block upper triangular with an off-diagonal transversal: not strong Hall, zero diagonal
+        pat = set(); k = max(1, n // 2)
+        sh = list(range(n)); 
+        for j in range(n): pat.add(((j + 1) % n if j < n - 1 else 0, j)) if False else None
+        perm2 = list(range(n)); rng.shuffle(perm2)
+        for j in range(n): pat.add((perm2[j], j))
+        for j in range(k, n):
+            for i in range(k):
+                if rng.random() < 0.4: pat.add((i, j))
+        for j in range(n):
+            if rng.random() < 0.2: pat.add((rng.randrange(n), j))
     elif kind == "blockdiag":
         b = rng.randint(2, 5)
         for j in range(n):
